@@ -3,13 +3,12 @@
 # quick check of its property against that worktree, undo it. Writes /verif/seeded/MATRIX.md (which check
 # reports which change). /repo itself is never touched (VERIF_REPO, separate target dir).
 cd /verif || exit 2
-wt=/tmp/seed_wt
+wt=/tmp/matrix_wt
 export CARGO_NET_OFFLINE=true
 if [ ! -d $wt ]; then git -C /repo worktree add -q --detach $wt HEAD || exit 2; fi
 ( cd $wt && git checkout -q --detach "$(git -C /repo rev-parse HEAD)" && git reset -q --hard && git clean -qfd ) || exit 2
-export VERIF_REPO=$wt CARGO_TARGET_DIR=/tmp/seed_target IASTMC_BIN=/tmp/seed_target/debug/iastmc
+export VERIF_REPO=$wt CARGO_TARGET_DIR=/tmp/matrix_target IASTMC_BIN=/tmp/matrix_target/debug/iastmc VERIF_EVIDENCE_DIR=/tmp/matrix_evidence VERIF_REPLAY_DIR=/tmp/matrix_replays
 out=/verif/seeded/MATRIX.md
-rm -rf /tmp/seed_evidence_backup; cp -r evidence /tmp/seed_evidence_backup
 echo "| seed | property | applies | check exit | rules reported |" > $out
 echo "|---|---|---|---|---|" >> $out
 for d in seeded/*/; do
@@ -26,4 +25,3 @@ for d in seeded/*/; do
   fi
   tail -1 $out
 done
-rm -rf /verif/replays /verif/evidence && mv /tmp/seed_evidence_backup /verif/evidence
